@@ -166,6 +166,10 @@ string error_handler(mapping err, int caught) {
   // a handler that protects its own logging with catch(), as real mudlibs do
   { mixed e2; e2 = catch(error("inner error of the error handler\n")); e2 = catch(tf = tf + ""); }
 #endif
+#ifdef EH_CATCH1
+  // a handler that only runs a catch() which completes normally
+  { mixed e3; e3 = catch(tf = tf + ""); }
+#endif
 #ifdef EH_RAISE
   if (EH_RAISE == 1 || (EH_RAISE == 2 && eh_count <= 2)) error("error_handler bomb\n");
 #endif
